@@ -58,6 +58,8 @@ OP_CLASS = {
     "unlink": "unlink", "remove": "unlink", "rmdir": "unlink",
     "fstat": "fdmeta", "lseek": "fdmeta", "utime": "chmod",
     "flock": "lock",
+    "pwrite": "write", "writev": "write", "sendfile": "write", "copy_file_range": "write", "posix_fallocate": "write",
+    "pread": "read", "readv": "read",
 }
 
 # C16's quantifier names five failures for EVERY call boundary (ENOSPC, EACCES, EIO, EINTR, EROFS); they are admissible
@@ -100,6 +102,7 @@ _OS_NAMES = [
     "stat", "lstat", "access", "readlink", "scandir", "listdir", "open", "close", "read", "write",
     "lseek", "fsync", "fdatasync", "fstat", "fchmod", "chmod", "truncate", "ftruncate", "utime",
     "mkdir", "rmdir", "replace", "rename", "unlink", "remove", "link", "symlink",
+    "pwrite", "writev", "sendfile", "copy_file_range", "posix_fallocate", "pread", "readv",
 ]
 
 
@@ -614,7 +617,11 @@ class Simulation:
         detail = None
         first = args[0] if args else None
         opname = name
-        if name in ("close", "read", "write", "lseek", "fsync", "fdatasync", "fstat", "fchmod", "ftruncate"):
+        if name in ("sendfile", "copy_file_range"):
+            # data lands in the OUT descriptor: os.sendfile(out_fd, in_fd, ...), os.copy_file_range(src, dst, ...)
+            first = args[0] if name == "sendfile" else args[1]
+        if name in ("close", "read", "write", "lseek", "fsync", "fdatasync", "fstat", "fchmod", "ftruncate", "pwrite", "writev", "sendfile",
+                    "copy_file_range", "posix_fallocate", "pread", "readv"):
             fd = first
             if fd not in a.fds:
                 if a.dead:
@@ -770,7 +777,7 @@ class Simulation:
                     self._dirty(ino, fd)
         elif name == "close":
             self._drop_fd(a, op.fd)
-        elif name in ("write", "ftruncate"):
+        elif name in ("write", "ftruncate", "pwrite", "writev", "sendfile", "copy_file_range", "posix_fallocate"):
             ino = a.fds[op.fd]["ino"]
             self._dirty(ino, op.fd)
             if name == "write":
@@ -1566,8 +1573,15 @@ _ACTIVE_SIMS: list = []
 FOREIGN_BYPASS: list = []
 
 
+_SPAWN_EVENTS = {"subprocess.Popen", "os.system", "os.exec", "os.posix_spawn", "os.spawn", "os.fork", "os.forkpty"}
+
+
 def _audit(event, args):
     a = getattr(_tls, "actor", None)
+    if a is not None and not getattr(_tls, "harness", 0) and event in _SPAWN_EVENTS:
+        # a child process is outside the simulator: whatever it does to the sandbox is neither scheduled nor recorded
+        a.sim.aborting = a.sim.aborting or f"code under test spawned a process ({event}): cannot be simulated, no verdict"
+        raise HarnessError(f"code under test spawned a process ({event})")
     if a is None and not getattr(_tls, "harness", 0) and _ACTIVE_SIMS and (event in _AUDIT_MUTATING or event == "open"):
         # a thread that is neither an actor nor the harness' own: code under test moved file work to a helper thread, where
         # the seam cannot see it.  If it touches a sandbox, no verdict of this run can be trusted.
